@@ -168,6 +168,97 @@ def replay(s):
     return out
 
 
+
+# ------------------------------------------------------------------------------------ BIT STRING algebra (spec/BitStr.tla)
+def bitstr_replay(state):
+    """one reachable state of the BitStr machine (start value + operation history + model observables) replayed into
+    univ.BitString; returns (divergences, named deviation or None)"""
+    from pyasn1.type import univ
+    def mk(bits):
+        return univ.BitString(binValue=''.join(map(str, bits)))
+    out = []
+    dev = 'RepeatLosesLeadingZeros' if state['lz'] else None
+    try:
+        b = mk(state['start'])
+        for op in state['hist']:
+            o = op['o']
+            if o == 'concat':
+                b = b + mk(op['x'])
+            elif o == 'rconcat':
+                b = mk(op['x']) + b if len(op['x']) % 2 else tuple(op['x']) + b      # both spellings of x + s
+            elif o == 'repeat':
+                b = b * op['n']
+            elif o == 'shl':
+                b = b << op['n']
+            elif o == 'shr':
+                b = b >> op['n']
+            elif o == 'slice':
+                b = b[op['i']:op['j']]
+        want = state['obs']
+        got_bits = [int(c) for c in b.asBinary()]
+        if got_bits != want['bits']:
+            out.append('asBinary %s, model %s' % (b.asBinary(), ''.join(map(str, want['bits']))))
+        if len(b) != len(want['bits']):
+            out.append('len %d, model %d' % (len(b), len(want['bits'])))
+        if list(b) != want['bits']:
+            out.append('iteration %s differs' % (list(b),))
+        if list(b.asOctets()) != want['octets'] or list(b.asNumbers()) != want['octets']:
+            out.append('asOctets %s, model %s' % (list(b.asOctets()), want['octets']))
+        if not isinstance(b, univ.BitString) or not b.isValue:
+            out.append('result is not a BIT STRING value object')
+        if not (b == mk(want['bits'])) or (b != mk(want['bits'])):
+            out.append('does not compare equal to a fresh object with the model bits')
+        for other in ([], [0], [1], [0, 1]):
+            lt = len(want['bits']) < len(other) or (len(want['bits']) == len(other) and want['bits'] < other)
+            if (b < mk(other)) != lt:
+                out.append('< %s is %s, model %s' % (other, b < mk(other), lt))
+    except Exception as e:   # noqa
+        out.append('crash %s: %s' % (type(e).__name__, e))
+    return out, dev
+
+
+def bitstr_part(ctx, sc):
+    maxops = 2 if ctx.quick else 3
+    with open(sc.file('MC_bits.tla'), 'w') as f:
+        f.write('---- MODULE MC_bits ----\nEXTENDS BitStr\nVARIABLES obs, lz\nMCInit == Init /\\ obs = Obs(bits) /\\ lz = FALSE\n'
+                "MCNext == Next /\\ obs' = Obs(bits') /\\ lz' = (lz \\/ (hist'[Len(hist')].o = \"repeat\" /\\ hist'[Len(hist')].n > 1 "
+                "/\\ bits # <<>> /\\ bits[1] = 0))\n====\n")
+    with open(sc.file('MC_bits.cfg'), 'w') as f:
+        f.write('INIT MCInit\nNEXT MCNext\nCONSTANT MaxOps = %d\n' % maxops +
+                ''.join('INVARIANT %s\n' % i for i in ('TypeOK', 'ConcatLength', 'RepeatLength', 'ShiftInverse', 'OctetsCoverBits',
+                                                       'LessIsStrictOrder')) + 'CHECK_DEADLOCK FALSE\n')
+    dump = sc.file('bits.dump')
+    r = tlc.run(sc.file('MC_bits.tla'), sc.file('MC_bits.cfg'), sc, dump=dump, timeout=3000)
+    ctx.add_tlc('BitStr machine (histories of <= %d operations)' % maxops, r)
+    if not r.ok:
+        raise core.Machinery('BitStr model run failed: %s %s\n%s' % (r.violated, r.errors[:2], r.out[-1500:]))
+    states = list(tlaval.parse_dump(open(dump).read()))
+    os.remove(dump)
+    states.sort(key=lambda s: json.dumps(s, sort_keys=True))
+    res = core.pmap(bitstr_replay, states, chunksize=512)
+    devs = 0
+    bad = 0
+    for s, (divs, dev) in zip(states, res):
+        ctx.evaluations += 1
+        if divs and dev:
+            devs += 1          # named deviation of the library outside the listed properties (see DESIGN 12.4)
+            continue
+        if divs:
+            bad += 1
+            ctx.report('BIT STRING algebra: %s after %s: %s' % (s['start'], [tuple(sorted(o.items())) for o in s['hist']], '; '.join(divs[:3])),
+                       {'clause': 'BitStringAlgebra', 'part': 'bitstr', 'ops': sorted({o['o'] for o in s['hist']})},
+                       {'prop': 'C14', 'kind': 'bitstr', 'state': s, 'divergences': divs})
+    ctx.traces += len(states) - bad - devs
+    ctx.keys.add(('bitstr', len(states)))
+    flipped = json.loads(json.dumps(states[len(states) // 2]))
+    flipped['obs']['bits'] = flipped['obs']['bits'] + [1]
+    if not bitstr_replay(flipped)[0]:
+        raise core.Machinery('bitstr replay self-test failed')
+    ctx.extra['bitstr'] = ('%d histories of spec/BitStr.tla replayed into univ.BitString (asBinary, len, iteration, asOctets/asNumbers, '
+                           '==, <); %d of them hit the named deviation RepeatLosesLeadingZeros (s * n drops leading zero bits: '
+                           'outside the listed properties, not reported)' % (len(states), devs))
+    ctx.sample({'bit string history': states[len(states) // 3]})
+
 def run(ctx):
     with tlc.Scratch('c14') as sc:
         depth = 1 if ctx.quick else 2
@@ -200,8 +291,10 @@ def run(ctx):
         if not replay(flipped):
             raise core.Machinery('replay self-test failed: a flipped model verdict went unnoticed')
         ctx.extra['replay_selftest'] = 'flipped model verdict detected'
+        bitstr_part(ctx, sc)
     ctx.rule = ('every state of the generator machine spec/Constraint.tla: (expression tree of depth <= %d over single value, range, '
                 'size, alphabet, intersection, union, exclusion) x candidate values around every boundary; derivation chains '
                 'T0 -> c1 -> c2; value-producing operations (+ - * // %% neg abs << >> ** ; concatenation, slicing, repetition; '
-                'decode) on admitted operands; each state replayed into pyasn1 and compared with the model verdict') % depth
+                'decode) on admitted operands; each state replayed into pyasn1 and compared with the model verdict; plus every history of '
+                '<= 2 (quick) / 3 (thorough) BIT STRING operations of spec/BitStr.tla compared observable by observable') % depth
     ctx.exhaustive = True
